@@ -65,7 +65,7 @@ def scan_forbidden():
     return bad
 
 
-def proof_obligations(prop):
+def proof_obligations(prop, tier="quick"):
     """(re)compile Props/<prop>.v with a full .vo build and read back Print Assumptions"""
     rel = "theories/Props/%s.v" % prop
     src = os.path.join(vfx.COQ, rel)
@@ -113,6 +113,23 @@ def proof_obligations(prop):
     if bad:
         info["errors"].append("forbidden constructs: " + "; ".join(bad[:5]))
         info["discharged"] = 0
+    if tier == "thorough" and not info["errors"]:
+        # the independent checker re-checks the compiled property file and everything it depends on
+        import subprocess
+        try:
+            r = subprocess.run(["coqchk", "-silent", "-o", "-Q", "theories", "VFS", "VFS.Props." + prop], cwd=vfx.COQ,
+                               capture_output=True, text=True, timeout=1800)
+            txt = r.stdout + r.stderr
+            summary = txt[txt.find("CONTEXT SUMMARY"):] if "CONTEXT SUMMARY" in txt else txt[-800:]
+            info["coqchk"] = " ".join(summary.split())[:600]
+            clean = (r.returncode == 0 and "* Axioms: <none>" in summary and "type-in-type: <none>" in summary
+                     and "unsafe (co)fixpoints: <none>" in summary and "positivity is assumed: <none>" in summary)
+            if not clean:
+                info["errors"].append("coqchk does not report a clean context: " + info["coqchk"])
+                info["discharged"] = 0
+        except subprocess.TimeoutExpired:
+            info["errors"].append("coqchk timed out")
+            info["discharged"] = 0
     return info
 
 
@@ -162,7 +179,7 @@ def main_check(prop, module, argv):
     violations = []   # (replay path, suffix)
 
     # 1. proof obligations
-    po = proof_obligations(prop)
+    po = proof_obligations(prop, tier)
     proof_ok = not po["errors"] and po["discharged"] == po["obligations"] and po["obligations"] > 0
     if not proof_ok:
         print("proof obligations of %s do not check: %s" % (prop, po["errors"]))
@@ -210,7 +227,8 @@ def main_check(prop, module, argv):
 
     coverage = {
         "obligations": po["obligations"], "discharged": po["discharged"],
-        "checker_cmd": "cd /verif/coq && make -j16 theories/Props/%s.vo  (coqc 8.16.1, full .vo build, Print Assumptions per theorem)" % prop,
+        "checker_cmd": "cd /verif/coq && make -j16 theories/Props/%s.vo  (coqc 8.16.1, full .vo build, Print Assumptions per theorem)%s" % (
+            prop, "; coqchk -silent -o -Q theories VFS VFS.Props.%s => %s" % (prop, po["coqchk"]) if po.get("coqchk") else ""),
         "trusted_base": TRUSTED_BASE,
         "theorems": po["theorems"], "axioms": po["axioms"],
         "evaluations": stats.get("evaluations", 0),
